@@ -139,15 +139,17 @@ def dates_case():
                 def propagate(self, date):
                     return Rec(date)
             got = [tsec(env, o.date, epoch) for o in P().iter(dates=dates)]
-            return {"n": len(got), "dates": got}
+            return {"n": len(got), "dates": got, "empty_list_count": len(list(P().iter(dates=[]))),
+                    "generator_count": len(list(P().iter(dates=(x for x in dates))))}
         finally:
             if not env.symbolic:
                 c03.restore_eop()
 
     def ref(env, v, out):
-        return {"n": 3, "dates": [v["off"], v["span"], v["step"]]}
+        return {"n": 3, "dates": [v["off"], v["span"], v["step"]], "empty_list_count": 0, "generator_count": 3}
     return Case("analytical/dates", INS, run, ref, pre=lambda v: base_pre(v, 1), timeout=60, maxpaths=50, tol=1e-9, abs_tol=3e-6,
-                desc="iter(dates=[...]) yields exactly the given dates, in the given order (any order, any position w.r.t. the epoch)")
+                desc="iter(dates=[...]) yields exactly the given dates, in the given order (any order, any position w.r.t. the epoch); "
+                     "an empty list yields nothing, a generator of dates is consumed like a list")
 
 
 def ephem_case(mode, K):
@@ -550,6 +552,8 @@ def numiter_args_case(stop_kind):
             stp = lambda x: (x.total_seconds().r if env.symbolic else x.total_seconds())
             b_stop = v["span"] if stop_kind == "timedelta" else v["off"] + v["span"]
             return {"start": sec(a["start"]), "stop": sec(a["stop"]), "step": stp(a["step"]),
+                    "default_start": sec(b["start"]) if b["start"] is not None else 0,
+                    "default_start_resolved": Holds(b["start"] is not None) if not env.symbolic else Holds(SB(z3.BoolVal(b["start"] is not None))),
                     "default_stop": sec(b["stop"]), "default_step": stp(b["step"]), "_bstop": b_stop}
         finally:
             if not env.symbolic:
@@ -559,7 +563,7 @@ def numiter_args_case(stop_kind):
         back = v["span"] < 0
         bstop = out["_bstop"]
         return {"start": v["off"], "stop": v["off"] + v["span"], "step": -v["step"] if back else v["step"],
-                "default_stop": bstop, "default_step": (-v["h"] if bstop < 0 else v["h"]), "_bstop": bstop}
+                "default_start": 0, "default_start_resolved": None, "default_stop": bstop, "default_step": (-v["h"] if bstop < 0 else v["h"]), "_bstop": bstop}
     return Case(f"numiter_args/{stop_kind}", ins, run, ref, pre=pre, timeout=60, tol=1e-9, abs_tol=3e-6,
                 desc=f"NumericalPropagator.iter(start, stop as {stop_kind}, step): the range handed to the integrator is start .. "
                      "start + stop (a timedelta stop counts from start), step sign fixed up for backward ranges; start=None is the epoch")
